@@ -98,6 +98,7 @@ type harnessAgg struct {
 	Fallbacks  int
 	Viol       map[string][]interp.Violation // label -> first few
 	ViolCount  map[string]int
+	islandKept map[string]int
 	Samples    []sampleRec
 	Truncated  bool
 	Notes      map[string]int
@@ -250,7 +251,7 @@ func checkMain(args []string) int {
 	var queue []workItem
 	for i := len(sel) - 1; i >= 0; i-- {
 		h := sel[i]
-		aggs[h.Fn] = &harnessAgg{h: h, Aborts: map[string]int{}, Reach: map[string]int{}, Viol: map[string][]interp.Violation{}, ViolCount: map[string]int{}, Notes: map[string]int{}, distinct: map[string]bool{}}
+		aggs[h.Fn] = &harnessAgg{h: h, Aborts: map[string]int{}, Reach: map[string]int{}, Viol: map[string][]interp.Violation{}, ViolCount: map[string]int{}, islandKept: map[string]int{}, Notes: map[string]int{}, distinct: map[string]bool{}}
 		queue = append(queue, workItem{h, nil})
 	}
 	type result struct {
@@ -386,6 +387,11 @@ func checkMain(args []string) int {
 		for _, v := range pr.Violations {
 			a.ViolCount[v.Label]++
 			if len(a.Viol[v.Label]) < 3 {
+				a.Viol[v.Label] = append(a.Viol[v.Label], v)
+			} else if !v.UF && a.islandKept[v.Label] < 3 {
+				// a model of a condition without uninterpreted applications replays faithfully: keep some of
+				// those even when earlier candidates of the label (possibly with such applications) fill the quota
+				a.islandKept[v.Label]++
 				a.Viol[v.Label] = append(a.Viol[v.Label], v)
 			}
 		}
